@@ -148,32 +148,38 @@ def obligations(tier, seed):
     quick = tier == "quick"
     out = []
     for lazy in (False, True):
-        for ml in ((8, 10) if quick else (8, 10, 12)):
+        for ml in ((8, 10) if quick else (8, 10, 11)):
             out.append({"name": "limits/%s/len%d" % ("lazy" if lazy else "eager", ml), "fn": "h_limits", "pre": "pre_limits",
                         "args": [["ops", "List[bool]"], ["ns", "List[bool]"], ["dlim", "int"], ["elim", "int"]],
-                        "config": {"lazy": lazy, "maxlen": ml, "maxlim": ml // 2 if quick else 7, "max_ns": 1 if quick else None},
+                        "config": {"lazy": lazy, "maxlen": ml, "maxlim": ml // 2 if quick else 6, "max_ns": 1 if quick else None},
                         "timeout": 400 if quick else 2400, "twin_timeout": 30,
-                        "bound": "event scripts <= %d start/end events, %s declaring a namespace (start-ns/end-ns events), limits in [1,%d]" % (ml, "at most one element" if quick else "any subset of the elements", ml // 2 if quick else 7)})
+                        "bound": "event scripts <= %d start/end events, %s declaring a namespace (start-ns/end-ns events), limits in [1,%d]" % (ml, "at most one element" if quick else "any subset of the elements", ml // 2 if quick else 6)})
     import random
     rnd = random.Random(seed)
     for version in ("1.0", "1.1"):
         names = builtin_names(version)
         sel = names if not quick else sorted(set(rnd.sample(names, 7) + [n for n in ("gYear", "dateTime", "duration", "QName", "IDREFS") if version == "1.0"]
                                                    + [n for n in ("QName",) if version == "1.1"]))
-        for n in sel:
-            k = 2 if quick else 3
-            out.append({"name": "escape/%s/%s" % (version, n), "fn": "h_escape", "pre": "pre_tokens",
-                        "args": [["t%d" % i, "int"] for i in range(k)], "config": {"version": version, "type": n, "ntok": 12 if quick else len(TOKENS)},
-                        "timeout": 200 if quick else 1500, "twin_timeout": 30,
-                        "bound": "text = %d tokens from %r (finite choice)" % (k, TOKENS[:12 if quick else len(TOKENS)])})
+        for j, n in enumerate(sel):
+            # quick: 2 tokens of the first 12; thorough: 2 tokens of all 19 for every type, 3 tokens of the first 8 for every third type
+            plans = [(2, 12)] if quick else [(2, len(TOKENS))] + ([(3, 8)] if j % 3 == 0 else [])
+            for k, ntok in plans:
+                out.append({"name": "escape/%s/%s%s" % (version, n, "" if len(plans) == 1 or k == 2 else "/3tok"), "fn": "h_escape", "pre": "pre_tokens",
+                            "args": [["t%d" % i, "int"] for i in range(k)], "config": {"version": version, "type": n, "ntok": ntok},
+                            "timeout": 200 if quick else 1500, "twin_timeout": 30,
+                            "bound": "text = %d tokens from %r (finite choice)" % (k, TOKENS[:ntok])})
     for version in ("1.0", "1.1"):
         for w in range(len(XSI_WHERE)):
             if quick and XSI_WHERE[w] in ("c",):
                 continue
-            out.append({"name": "xsi/%s/on-%s" % (version, XSI_WHERE[w]), "fn": "h_xsi", "pre": "pre_xsi",
-                        "args": [["t", "int"], ["n", "int"], ["s", "int"], ["w", "int"]][:3 if not quick else 2] + [["w", "int"]],
-                        "config": {"version": version, "xsi": True, "fixed_w": w}, "timeout": 300 if quick else 1500, "twin_timeout": 30,
-                        "bound": "xsi:type from %r x xsi:nil from %r%s on element %s" % (XSI_TYPES, XSI_NILS, "" if quick else " x stray %r" % (XSI_STRAY,), XSI_WHERE[w])})
+            for grp in ((("t", "s"), ("t", "n")) if quick else (("t", "n", "s"),)):
+                if quick and grp == ("t", "n") and XSI_WHERE[w] not in ("n", "r"):
+                    continue
+                out.append({"name": "xsi/%s/on-%s/%s" % (version, XSI_WHERE[w], "+".join(grp)), "fn": "h_xsi", "pre": "pre_xsi",
+                            "args": [[g, "int"] for g in grp] + [["w", "int"]],
+                            "config": {"version": version, "xsi": True, "fixed_w": w}, "timeout": 300 if quick else 1500, "twin_timeout": 30,
+                            "bound": "xsi:type from %r%s%s on element %s" % (XSI_TYPES, " x xsi:nil from %r" % (XSI_NILS,) if "n" in grp else "",
+                                                                            " x stray %r" % (XSI_STRAY,) if "s" in grp else "", XSI_WHERE[w])})
     for api in ("is_valid", "decode"):
         out.append({"name": "recursion/%s" % api, "engine": "smt", "fn": "smt_recursion", "config": {"api": api}, "timeout": 120,
                     "bound": "all depths 1..MAX_XML_DEPTH (linear frame model measured at depths 5, 10, 20)"})
